@@ -196,12 +196,33 @@ func (c *salsa20BlockCrypt) Decrypt(dst, src []byte) {
 }
 
 // NewSM4BlockCrypt https://github.com/tjfoc/gmsm/tree/master/sm4
+// sm4Block serialises access to the gmsm SM4 cipher: it keeps scratch buffers
+// inside the cipher object, so two goroutines using it at once (a session
+// encrypts in postProcess while its read loop decrypts, under two different
+// mutexes of blockCrypt) corrupt each other's blocks.
+type sm4Block struct {
+	mu sync.Mutex
+	cipher.Block
+}
+
+func (b *sm4Block) Encrypt(dst, src []byte) {
+	b.mu.Lock()
+	b.Block.Encrypt(dst, src)
+	b.mu.Unlock()
+}
+
+func (b *sm4Block) Decrypt(dst, src []byte) {
+	b.mu.Lock()
+	b.Block.Decrypt(dst, src)
+	b.mu.Unlock()
+}
+
 func NewSM4BlockCrypt(key []byte) (BlockCrypt, error) {
 	block, err := sm4.NewCipher(key)
 	if err != nil {
 		return nil, err
 	}
-	return newBlockCrypt(block), nil
+	return newBlockCrypt(&sm4Block{Block: block}), nil
 }
 
 // NewTwofishBlockCrypt https://en.wikipedia.org/wiki/Twofish
